@@ -1241,7 +1241,8 @@ class Delay(Function):
     def term(self, time="t"):
         delayed_time = "{} - {}".format(str(time),
                                         self.delay_duration.term(str(self.model.starttime)))
-        return "({} if {}>={} else {})".format(
+        # compare on the time grid: 0.7 - 0.2 is 0.49999999999999994 in floating point
+        return "({} if round(({})-({}),9)>=0 else {})".format(
             self.input_function.term(delayed_time),
             delayed_time,
             str(self.model.starttime),
